@@ -1588,7 +1588,7 @@ vbi_proxyd_channel_update( int dev_idx, PROXY_CLNT * req, vbi_bool forced_switch
    {  /* no channel change is allowed or required */
 
       /* flush-only flag: assume client has already done the switch -> must flush VBI buffers */
-      if (forced_switch)
+      if (forced_switch && (p_proxy_dev->p_capture != NULL))
       {
          vbi_capture_flush(p_proxy_dev->p_capture);
       }
